@@ -219,6 +219,17 @@ def unit_table():
     return tab
 
 
+def _big_stack():
+    """the extracted model recurses over the event list: long histories (several ring wraps) need a
+    deep native stack"""
+    import resource
+    try:
+        soft, hard = resource.getrlimit(resource.RLIMIT_STACK)
+        resource.setrlimit(resource.RLIMIT_STACK, (hard, hard))
+    except Exception:   # noqa
+        pass
+
+
 class Model:
     def __init__(self):
         self.units = unit_table()
@@ -230,7 +241,8 @@ class Model:
             return []
         uid = self.units[unit]
         inp = "".join("%d %s\n" % (uid, enc(a)) for a in args)
-        p = subprocess.run([self.exe], input=inp, stdout=subprocess.PIPE, stderr=subprocess.PIPE, text=True)
+        p = subprocess.run([self.exe], input=inp, stdout=subprocess.PIPE, stderr=subprocess.PIPE, text=True,
+                           preexec_fn=_big_stack)
         if p.returncode != 0:
             raise RuntimeError("model driver failed: %s" % p.stderr[-500:])
         lines = p.stdout.split("\n")
